@@ -36,7 +36,15 @@ func (m *F84Model) Distance(seq1 []uint8, seq2 []uint8, weights []float64) (floa
 	var dist float64
 
 	trS, trV, _, _, total := countMutations(seq1, seq2, m.selectedSites, weights)
+	// No difference between the sequences
+	if total > 0 && trS == 0 && trV == 0 {
+		return 0, nil
+	}
 	trS, trV = trS/total, trV/total
+	// Saturated sequences or no comparable site: the distance is not defined
+	if !(1.0-trS/(2.0*m.a)-(m.a-m.b)*trV/(2.0*m.a*m.c) > 0) || !(1-trV/(2.0*m.c) > 0) {
+		return math.NaN(), nil
+	}
 	if m.gamma {
 		dist = 2.0 * m.alpha * (m.a*math.Pow((1.0-trS/(2.0*m.a)-(m.a-m.b)*trV/(2.0*m.a*m.c)), -1./m.alpha) +
 			(m.b+m.c-m.a)*math.Pow((1-trV/(2.0*m.c)), -1./m.alpha) -
@@ -45,7 +53,11 @@ func (m *F84Model) Distance(seq1 []uint8, seq2 []uint8, weights []float64) (floa
 		dist = -2.0*m.a*math.Log(1.0-trS/(2.0*m.a)-(m.a-m.b)*trV/(2.0*m.a*m.c)) + 2.0*(m.a-m.b-m.c)*math.Log(1-trV/(2.0*m.c))
 	}
 
-	return dist, nil
+	// Rounding errors may give a slightly negative distance between identical sequences
+	if dist > 0 {
+		return dist, nil
+	}
+	return 0, nil
 }
 
 func (m *F84Model) InitModel(al align.Alignment, weights []float64, gamma bool, alpha float64) (err error) {
